@@ -4,7 +4,7 @@
 From Coq Require Import List NArith ZArith Bool Strings.Byte.
 From Flocq Require Import IEEE754.Binary IEEE754.Bits.
 From Muscle Require Import Gen.Consts Msg.MsgDefs Msg.MsgModel Flt.FltModel Flt.FltArchive Flt.FltParse
-  Flt.FltProofs Flt.FltArchiveProofs Flt.FltDocProofs Flt.FltNumProofs Flt.FltParseProofs Flt.FltParseStruct Flt.FltLexProofs Flt.FltIeee.
+  Flt.FltProofs Flt.FltArchiveProofs Flt.FltDocProofs Flt.FltNumProofs Flt.FltParseProofs Flt.FltParseStruct Flt.FltLexProofs Flt.FltIeee Flt.FltObject Flt.FltObjectProofs.
 Import ListNotations.
 Local Open Scope N_scope.
 
@@ -186,6 +186,36 @@ Theorem C14_archive_decides_identically : forall f,
 Proof. exact archive_decides_identically. Qed.
 Print Assumptions C14_archive_decides_identically.
 
+(* ================= a REUSED filter object: SetFromArchive overwrites the whole state (incl. the cached StringMatcher) *)
+Theorem C14_set_from_archive_overwrites : forall o g,
+  wf_filter g -> what_of (so_filter o) = what_of g ->
+  obj_set_from_archive o (to_archive g) = Ok (fresh g).
+Proof. exact set_from_archive_overwrites. Qed.
+Print Assumptions C14_set_from_archive_overwrites.
+
+(* for ANY prior state o of the object (any members of its class, any cached matcher, however often evaluated):
+   after SetFromArchive(archive of g) every later Matches() on it, in any number, is g's decision *)
+Theorem C14_reused_object_decides_as_archived : forall o g,
+  wf_filter g -> what_of (so_filter o) = what_of g ->
+  exists o', obj_set_from_archive o (to_archive g) = Ok o' /\
+             forall smatch node ms, fst (obj_eval_all smatch node o' ms) = map (eval smatch node g) ms.
+Proof. exact reused_object_decides_as_archived. Qed.
+Print Assumptions C14_reused_object_decides_as_archived.
+
+(* a used object whose cache is consistent decides like the pure evaluator, and stays consistent *)
+Theorem C14_used_object_decides_like_fresh : forall smatch node ms o,
+  cache_ok o -> fst (obj_eval_all smatch node o ms) = map (eval smatch node (so_filter o)) ms.
+Proof. exact obj_eval_all_ok. Qed.
+Print Assumptions C14_used_object_decides_like_fresh.
+
+Theorem C14_set_from_archive_leaves_consistent_object : forall o a o', obj_set_from_archive o a = Ok o' -> cache_ok o'.
+Proof. exact set_from_archive_consistent. Qed.
+Print Assumptions C14_set_from_archive_leaves_consistent_object.
+
+Theorem C14_set_from_archive_total : forall o a, exists r, obj_set_from_archive o a = r /\ (r = Err \/ exists o', r = Ok o').
+Proof. exact set_from_archive_total. Qed.
+Print Assumptions C14_set_from_archive_total.
+
 (* ================= untrusted archives *)
 Theorem C14_from_archive_total : forall a, exists r, from_archive a = r /\ (r = Err \/ exists f, r = Ok f).
 Proof. exact from_archive_total. Qed.
@@ -311,6 +341,12 @@ Proof. cbn. repeat split; try reflexivity; repeat constructor. Qed.
 
 Example C14_exists_type_example : (c_B_INT32_TYPE =? c_B_ANY_TYPE) = false /\ ((c_B_INT32_TYPE =? c_B_STRING_TYPE) || (0 <? elem_size (ftype_of_tc c_B_INT32_TYPE))) = true.
 Proof. split; reflexivity. Qed.
+
+Example C14_reuse_example :     (* a used wildcard filter "a*" (matcher cached) and the filter "b*" of the same class and operator *)
+  let o := mkSO (FStr false [x6e] 0 c_SQF_OP_SIMPLE_WILDCARD_MATCH [x61; x2a] None) (Some (c_SQF_OP_SIMPLE_WILDCARD_MATCH, [x61; x2a])) in
+  let g := FStr false [x6e] 0 c_SQF_OP_SIMPLE_WILDCARD_MATCH [x62; x2a] (Some [x62]) in
+  wf_filter g /\ what_of (so_filter o) = what_of g /\ cache_ok o.
+Proof. cbv zeta. repeat split; vm_compute; reflexivity. Qed.
 
 Example C14_unknown_op_example : c_NQF_NUM_NUMERIC_OPERATORS <= 200 /\ c_SQF_NUM_STRING_OPERATORS <= 200.
 Proof. split; vm_compute; discriminate. Qed.
